@@ -296,7 +296,7 @@ theorem router_ack (hc : L3Contracts) (cfg : AddrCfg) (hcfg : CfgOk cfg) (L : Li
     (hjda : jd ∉ s.active) (hract : r ∈ s.active) (haact : a ∈ s.active)
     (p : Nat) (hp : p ≤ 5) (hfifo : (s.radioAt r).rxFifo = [{ pipe := p, data := pk }])
     (hempty : ∀ k, k < s.nodes.length → k ≠ r → (s.radioAt k).rxFifo = [])
-    (hlast_d : (s.radioAt jd).lastRx = none) (hlast_a : (s.radioAt a).lastRx = none)
+    (hlast_d : NotDup (s.radioAt jd) pk) (hlast_a : NotDupFrame (s.radioAt a) (ackOf fr))
     (hacc : Accepts (s.nodeAt jd).queue fr) (hg : s.nodes.length + 2 ≤ g) :
     ∃ s' pkA, (ackOf fr).pack = .ok pkA ∧ nexec (nodeUpdate (g + 11 + jd)) s = (.ok 0, s') ∧
       NetOk cfg L tree s' ∧ s'.cur = r ∧ s'.active = s.active ∧ Same s s' ∧
@@ -695,7 +695,7 @@ theorem router_ack (hc : L3Contracts) (cfg : AddrCfg) (hcfg : CfgOk cfg) (L : Li
     rw [hs6drvrad]
     exact Nt.packet A' pkA tt hA'len
   have hrecvA := Radio.receive_idle hNa (hopPipe y x) A' pkA Dt.radio.nextPid hq1 hq5 hA'2 hA'3
-    (by rw [hempty a ha (fun e => hra e.symm)]; decide) (by rw [hlast_a]; simp)
+    (by rw [hempty a ha (fun e => hra e.symm)]; decide) (fun e => hlast_a _ e hpkA)
   obtain ⟨D4, e4, r4, l4, f4, o4, N4, x4, lr4, _, _⟩ := hc.send s6.drv L P false pkA (s.ridAt a)
     (by unfold DrvState.Wf; rw [hs6drvd, hDtrid]; show _ < s6.w.radios.length; rw [hs6rlen]; exact hn6)
     (by rw [hs6drvd, hs6drvrad]; exact Nt) (by rw [hs6drvrad, tt, at'])
@@ -961,7 +961,9 @@ theorem nodeWrite_await_eval (s' s4 s8 : NetState) (D : DrvState) (wd tn tp t f 
 /-- **The NETWORK_ACK round trip over two hops** (closed system, loss-free, driver contracts): the
     origin `a` (tree node `x`) writes a single-frame message of a user type in 65..127 for `d`, two
     hops away (`y = nextHop x d`, `nextHop y d = d`), all three present in a listening, quiet tree
-    network, none of them having received anything yet, the destination's queue accepting the frame.
+    network, the packet accepted last by the first hop's and the destination's radio not carrying this frame's bytes
+    and that of the origin's radio not carrying the bytes of this frame's NETWORK_ACK (`NotDupFrame`), the
+    destination's queue accepting the frame.
     `write()` returns `True` (the acknowledgement is read in the very first `_net_update()` of the
     wait loop), and the destination's queue has gained exactly that message. -/
 theorem live_two_hops (hc : L3Contracts) (cfg : AddrCfg) (hcfg : CfgOk cfg) (L : LinkCfg) (tree : Nat → List Nat)
@@ -972,7 +974,9 @@ theorem live_two_hops (hc : L3Contracts) (cfg : AddrCfg) (hcfg : CfgOk cfg) (L :
     (hta : tree a = x) (htr : tree r = y) (htd : tree jd = d)
     (hy1 : nextHopSpec x d = y) (hy2 : nextHopSpec y d = d) (hxd : x ≠ d) (hyd : y ≠ d)
     (hquiet : ∀ i, i < s.nodes.length → (s.radioAt i).rxFifo = [])
-    (hlast : ∀ i, i < s.nodes.length → (s.radioAt i).lastRx = none)
+    (hlast_r : NotDupFrame (s.radioAt r) (wireCopy (callerFrame x d s.nextId ty msg)))
+    (hlast_d : NotDupFrame (s.radioAt jd) (wireCopy (callerFrame x d s.nextId ty msg)))
+    (hlast_a : NotDupFrame (s.radioAt a) (ackOf (wireCopy (callerFrame x d s.nextId ty msg))))
     (hty : 65 ≤ ty ∧ ty ≤ 127) (hlen : msg.length ≤ MAX_FRAG_SIZE) (hmax : msg.length ≤ (s.nodeAt a).maxMessageLength)
     (hacc : Accepts (s.nodeAt jd).queue (wireCopy (callerFrame x d s.nextId ty msg))) :
     ∃ s1, nexec (apiNetWrite (val d) ty msg AUTO_ROUTING) s = (.ok (true, callerFrame x d s.nextId ty msg), s1) ∧
@@ -1002,7 +1006,7 @@ theorem live_two_hops (hc : L3Contracts) (cfg : AddrCfg) (hcfg : CfgOk cfg) (L :
     unfold callerFrame
     rw [hnode, hn2]; rfl
   rw [hcf] at hw
-  generalize hcdef : callerFrame x d s.nextId ty msg = c at hw hacc ⊢
+  generalize hcdef : callerFrame x d s.nextId ty msg = c at hw hacc hlast_r hlast_d hlast_a ⊢
   have hm1 : maskInt ty 0xFF = ty.toNat := by
     unfold maskInt
     have : ty % ((0xFF : Nat) + 1 : Int) = ty := Int.emod_eq_of_lt (by omega) (by omega)
@@ -1021,7 +1025,7 @@ theorem live_two_hops (hc : L3Contracts) (cfg : AddrCfg) (hcfg : CfgOk cfg) (L :
   have T : AckTransit (wireCopy c) pk ty.toNat x d :=
     ⟨by unfold wireCopy; simp only [Header.ty, Nat.and_assoc, Nat.and_self], by rw [hwc], by omega,
      by unfold MAX_USR_DEF_MSG_TYPE; omega, by rw [hwc], by rw [hwc], hpk, by rw [hwc]; exact hlen, hdn, hn1⟩
-  generalize hfr : wireCopy c = fr at T hacc hpk hwc
+  generalize hfr : wireCopy c = fr at T hacc hpk hwc hlast_r hlast_d hlast_a
   -- the prepared state
   have hprep : (({ s with nextId := (((s.nextId + 1) &&& 0xFFFF) + 1) &&& 0xFFFF } : NetState).setNode
       fun n => { n with frameBuf := wireCopy c }) = prepared s c := rfl
@@ -1068,7 +1072,7 @@ theorem live_two_hops (hc : L3Contracts) (cfg : AddrCfg) (hcfg : CfgOk cfg) (L :
       exact (hok.inj i s.cur (by rw [← hs'l]; exact hi) ha (by rw [← hs'c]; exact hic)).2)
     (by rw [hs'at r hra, hs'rad]; exact hNr)
     (by rw [hs'n]; show pipeAddress s.node.cfg _ _ = _; rw [hnode, hn3]; exact hA1)
-    hA2 hp1 hp5 hA3 (by rw [hs'rad]; exact hlast r hr)
+    hA2 hp1 hp5 hA3 (by rw [hs'rad]; exact hlast_r.notDup hpk)
     (by
       intro ρ pid hri hrj
       rw [hs'w]
@@ -1091,7 +1095,8 @@ theorem live_two_hops (hc : L3Contracts) (cfg : AddrCfg) (hcfg : CfgOk cfg) (L :
   obtain ⟨D5, e5a, e5b, F5, N5, x5⟩ := restore hc s' D L P true hs'cur hDW N3
   have hD5rid : D5.d.rid = s.ridAt s.cur := by rw [F5.rid]; exact hDrid
   have hD5fifo : D5.radio.rxFifo = [] := by rw [x5, x3, hs'd]; exact hquiet s.cur ha
-  have hD5last : D5.radio.lastRx = none := by rw [F5.lastRx, lr3, hs'd]; exact hlast s.cur ha
+  have hD5last : NotDupFrame D5.radio (ackOf fr) := by
+    intro l hl; rw [F5.lastRx, lr3, hs'd] at hl; exact hlast_a l hl
   have hD5oth : ∀ ρ, ρ ≠ s.ridAt s.cur → D5.w.radio ρ = D.w.radio ρ := by
     intro ρ hρ; exact F5.others ρ (by rw [hDrid]; exact hρ)
   generalize hs4 : s'.afterRf D5 = s4 at e5b
@@ -1167,7 +1172,7 @@ theorem live_two_hops (hc : L3Contracts) (cfg : AddrCfg) (hcfg : CfgOk cfg) (L :
       by_cases hka : k = s.cur
       · subst hka; rw [hs4rada]; exact hD5fifo
       · rw [hs4rad k hk hka hkr]; exact hquiet k hk)
-    (by rw [hsrrad, hs4rad jd hjd (fun e => hajd e.symm) (fun e => hrjd e.symm)]; exact hlast jd hjd)
+    (by rw [hsrrad, hs4rad jd hjd (fun e => hajd e.symm) (fun e => hrjd e.symm)]; exact hlast_d.notDup hpk)
     (by rw [hsrrad, hs4rada]; exact hD5last)
     (by rw [hsrq]; exact hacc) (by rw [hsrl]; omega)
   rw [hsrl] at fifoo qr'
